@@ -480,10 +480,18 @@ def main(run):
     for c in rl:
         c['seed'] = run.seed % 4
     run.explore('rangeline', rl, run_rangeline, budget_s=300)
+    # what is stored and printed per assembly is that assembly's own: energy-balance table of cores with several
+    # positions of one type (vf/props/reports.py)
+    from . import reports
+    run.explore('report-ebal', [c_ for c_ in reports.cases_ebal(run.tier) if len(c_['layout'].split()) > 1],
+                reports.run_ebal, budget_s=300)
 
 
 def replay(body):
     from ..run import guarded
+    if str((body.get('scenario') or {}).get('probe', '')).startswith('report-'):
+        from . import reports
+        return reports.replay(body)
     fn = {'company': run_company, 'order': run_order, 'schedule': run_schedule,
           'isolation': run_isolation, 'rangeline': run_rangeline}[body.get('part') or 'company']
     c = {k: v for k, v in body['scenario'].items() if k not in ('perm', 'attr')}
